@@ -1,6 +1,7 @@
 import Ufw.Props.C02
 import Ufw.Tie.RegTable
 import Ufw.Props.C02Iff
+import Ufw.Tie.RegFns.Geometry
 #print axioms Ufw.Props.C02.refused_unchanged
 #print axioms Ufw.Props.C02.decision
 #print axioms Ufw.Props.C02.writeable_spec
@@ -14,3 +15,14 @@ import Ufw.Props.C02Iff
 #print axioms Ufw.Props.C02.malformed_complete
 #print axioms Ufw.Props.C02.blockWrite_total
 #print axioms Ufw.Props.C02.block_write_success_iff
+#print axioms Ufw.Tie.RegFns.gen_rds_size
+#print axioms Ufw.Tie.RegFns.rds_size_invalid
+#print axioms Ufw.Tie.RegFns.size_lt
+#print axioms Ufw.Tie.RegFns.gen_register_entry_size
+#print axioms Ufw.Tie.RegFns.gen_reg_min
+#print axioms Ufw.Tie.RegFns.gen_ra_addr_is_part_of
+#print axioms Ufw.Tie.RegFns.gen_ra_reg_is_part_of
+#print axioms Ufw.Tie.RegFns.gen_ra_reg_fits_into
+#print axioms Ufw.Tie.RegFns.gen_reg_range_touches
+#print axioms Ufw.Tie.RegFns.overlap_iff_touches_zero
+#print axioms Ufw.Tie.RegFns.gen_ra_range_touches
